@@ -161,6 +161,7 @@ func runC42(c *core.Ctx) {
 		}
 	}
 	c.Floor("threshold division sites", nSites, 13)
+	checkCommitDoneQuorum(c, "C42.commitdone-quorum")
 
 	// (B) intersection
 	f := eng.Div(eng.Sub(eng.N(), eng.K(1)), 3)
